@@ -160,13 +160,18 @@ def run(rep):
                     phi=None, phiunit='rad', FTn=None, varphi=None, varFTn=None)
         if ang[0] == 'phi':
             spec['phiunit'] = ang[1]
-            spec['phi'] = rng.uniform(0, 360) if ang[1][:3] == 'deg' else rng.uniform(0, 2 * math.pi)
+            # a fifth of the angles at the special values (180 deg in the Trento frame is 0.0 internally: falsy in Python)
+            if rng.random() < 0.2:
+                spec['phi'] = rng.choice([0.0, 90.0, 180.0, 180.0, 270.0, 360.0]) if ang[1][:3] == 'deg' else \
+                    rng.choice([0.0, math.pi / 2, math.pi, math.pi, 1.5 * math.pi])
+            else:
+                spec['phi'] = rng.uniform(0, 360) if ang[1][:3] == 'deg' else rng.uniform(0, 2 * math.pi)
         elif ang[0] == 'FTn':
             spec['FTn'] = ang[1]
         if var[0] == 'varFTn':
             spec['varFTn'] = var[1]
         elif var[0] == 'varphi':
-            spec['varphi'] = rng.uniform(0, 2 * math.pi)
+            spec['varphi'] = rng.choice([0.0, math.pi / 2, math.pi]) if rng.random() < 0.2 else rng.uniform(0, 2 * math.pi)
         specs.append(spec)
     for spec in specs:
         nerr = len(spec['errs'])
